@@ -4,6 +4,7 @@ import (
 	"database/sql/driver"
 	"fmt"
 	"math"
+	"regexp"
 	"strings"
 
 	"github.com/tobgu/qframe"
@@ -163,7 +164,7 @@ func c19Write(c *fw.Case) {
 		return
 	}
 	for r, e := range execs {
-		if e.Query != wantStmt {
+		if e.Query != wantStmt && !sameInsert(e.Query, wrap(table), colList, ph) {
 			c.Fail("statement-text", "row %d: statement %q, want %q (%s)", r, e.Query, wantStmt, dial)
 			return
 		}
@@ -424,4 +425,31 @@ func c19Read(c *fw.Case) {
 		}
 		c.Fail(key, "ReadSQL differs from the result set (%v, precision %d): %s", kinds, precision, d)
 	}
+}
+
+var insertShape = regexp.MustCompile(`(?is)^\s*INSERT\s+INTO\s+(.*?)\s*\((.*)\)\s*VALUES\s*\((.*)\)\s*;?\s*$`)
+
+// sameInsert accepts cosmetic variations (case of keywords, blanks, optional semicolon) of the expected statement.
+func sameInsert(got, table string, cols, placeholders []string) bool {
+	m := insertShape.FindStringSubmatch(got)
+	if m == nil || m[1] != table {
+		return false
+	}
+	split := func(s string) []string {
+		parts := strings.Split(s, ",")
+		for i := range parts {
+			parts[i] = strings.TrimSpace(parts[i])
+		}
+		return parts
+	}
+	gc, gp := split(m[2]), split(m[3])
+	if len(gc) != len(cols) || len(gp) != len(placeholders) {
+		return false
+	}
+	for i := range cols {
+		if gc[i] != strings.TrimSpace(cols[i]) || gp[i] != placeholders[i] {
+			return false
+		}
+	}
+	return true
 }
